@@ -227,13 +227,38 @@ def exec_history(job):
     return {"fan": False, "from": entries, "ev": evs}
 
 
+def snapshot(val):
+    """a deep, plain picture of a tree (lists of any mixture descended into): for comparing one side of a copy before / after"""
+    if isinstance(val, dict):
+        return {k: snapshot(v) for k, v in dict.items(val)}
+    if isinstance(val, list):
+        return [snapshot(v) for v in val]
+    return val
+
+
+def mix_lists(val):
+    """append a plain value to every list of levels in the tree (a list may hold plain values next to levels)"""
+    if isinstance(val, dict):
+        for v in dict.values(val):
+            mix_lists(v)
+    elif isinstance(val, list):
+        for v in val:
+            mix_lists(v)
+        if val and all(isinstance(x, dotdict_base) for x in val):
+            val.append(7)
+
+
 def exec_copy(job):
     """copies are structurally independent: mutate one side of a copy / deepcopy, the other must not change"""
-    entries, o, deep, side = job
+    entries, o, deep, side = job[:4]
+    mixed = len(job) > 4 and job[4]
     d = build(entries)
+    if mixed:
+        mix_lists(d)
     c = copy.deepcopy(d) if deep else copy.copy(d)
-    same = flatten(c) == flatten(d) and type(c) is type(d)
+    same = (snapshot(c) == snapshot(d) if mixed else flatten(c) == flatten(d)) and type(c) is type(d)
     target, other = (c, d) if side == "copy" else (d, c)
+    before = snapshot(other)
     ev = run_op(target, o, 0)
-    return {"from": entries, "o": o, "deep": deep, "side": side, "same": same, "ok": ev["ok"],
-            "S": flatten(target), "other": flatten(other)}
+    return {"from": entries, "o": o, "deep": deep, "side": side, "same": same, "ok": ev["ok"], "mixed": bool(mixed),
+            "S": flatten(target), "other": flatten(other), "indep": snapshot(other) == before}
